@@ -294,6 +294,11 @@ def check(prog, run):
                     run.report(rn, "%s:%s:unguarded-default" % (f.module.name, f.qualname), f.where(site),
                                "default_value is stored unconditionally from %s: elements without a declared default get one" % norm_stmt(val)[:60])
 
+    # ---- Y1 typed attribute reads in the SDL builder
+    from .. import typedrule
+    typedrule.run_rule(prog, run, "Y1", "sdl/**", "building a schema must fail only with the library's schema/SDL errors, never with "
+                       "AttributeError", ["py_gql.sdl"], 40)
+
     # ---- X1 only library errors
     r = run.rule("X1", "may-raise (explicit raises through resolved calls) of build_schema / extend_schema contains only "
                        "library errors (GraphQLError family); no exception object is constructed without being raised", 2)
